@@ -696,6 +696,12 @@ func ruleAssert(c *Ctx) []Obligation {
 				obs = append(obs, ok(R, con, pos, "dominated by a Kind() comparison whose constant only the asserted type returns"))
 				return
 			}
+			// (2b) container agreement: the operand comes out of a sync.Pool or sync.Map, and everything the
+			// repository puts into that container has the asserted type
+			if why := c.containerAgreement(ta); why != "" {
+				obs = append(obs, ok(R, con, pos, why))
+				return
+			}
 			// (3) interface-to-interface or to a type the operand statically always has
 			if why, okj := jget("assertJustified", assertJustified, con); okj {
 				obs = append(obs, just(R, con, pos, why))
@@ -1067,4 +1073,80 @@ func (c *Ctx) usesBeyondNilTest(fn *ssa.Function, i int) bool {
 	}
 	walk(p)
 	return uses
+}
+
+// containerAgreement: ta asserts the type of a value taken out of a sync.Pool (Get) or a sync.Map (Load,
+// LoadOrStore, Range is not handled); every value the repository puts into the same container — the pool's New
+// function, Put, Store, LoadOrStore — has the asserted type. The container is identified by the global (or field) it
+// lives in.
+func (c *Ctx) containerAgreement(ta *ssa.TypeAssert) string {
+	src := ta.X
+	if ex, isE := src.(*ssa.Extract); isE {
+		src = ex.Tuple
+	}
+	call, isC := src.(*ssa.Call)
+	if !isC {
+		return ""
+	}
+	cal := call.Call.StaticCallee()
+	if cal == nil || cal.Signature.Recv() == nil || len(call.Call.Args) == 0 {
+		return ""
+	}
+	recv := cal.Signature.Recv().Type().String()
+	var putNames []string
+	switch {
+	case strings.HasSuffix(recv, "sync.Pool") && cal.Name() == "Get":
+		putNames = []string{"Put"}
+	case strings.HasSuffix(recv, "sync.Map") && (cal.Name() == "Load" || cal.Name() == "LoadOrStore"):
+		putNames = []string{"Store", "LoadOrStore", "Swap"}
+	default:
+		return ""
+	}
+	container := AccessPath(call.Call.Args[0])
+	if !strings.HasPrefix(container, "global:") {
+		return ""
+	}
+	n := 0
+	okAll := true
+	check := func(v ssa.Value) {
+		n++
+		if mi, isMI := v.(*ssa.MakeInterface); isMI {
+			if !types.Identical(mi.X.Type(), ta.AssertedType) {
+				okAll = false
+			}
+			return
+		}
+		okAll = false
+	}
+	for _, fn := range c.Funcs {
+		eachInstr(fn, func(in ssa.Instruction) {
+			switch x := in.(type) {
+			case *ssa.Call:
+				cal2 := x.Call.StaticCallee()
+				if cal2 == nil || cal2.Signature.Recv() == nil || len(x.Call.Args) < 2 || AccessPath(x.Call.Args[0]) != container {
+					return
+				}
+				for _, pn := range putNames {
+					if cal2.Name() == pn {
+						check(x.Call.Args[len(x.Call.Args)-1])
+					}
+				}
+			case *ssa.Store:
+				// the pool's New function: stored into the container's New field (package initialiser)
+				if _, f, base := fieldOf(x.Addr); f != nil && f.Name() == "New" && base != nil && AccessPath(base) == container {
+					if nf := funcValue(x.Val); nf != nil {
+						eachInstr(nf, func(in2 ssa.Instruction) {
+							if r, isR := in2.(*ssa.Return); isR && len(r.Results) == 1 {
+								check(r.Results[0])
+							}
+						})
+					}
+				}
+			}
+		})
+	}
+	if n > 0 && okAll {
+		return fmt.Sprintf("container agreement: all %d values the repository puts into %s have this type", n, shortPath(container))
+	}
+	return ""
 }
